@@ -3,13 +3,13 @@ import ast
 import contextlib
 import io
 
-from .. import coqbuild
+from .. import coqbuild, gtie
 from ..common import GLOBAL_TRUSTED_BASE
 from ..model import call_many
 from ..pool import guarded, run_cases
 
 THEOREMS = ["C15_slices", "C15_start_is_line_start", "C15_header_prefix", "C15_footer_suffix", "C15_start_example",
-            "C15_slices_nonvacuous", "C15_rest_header_survives", "C15_tokens_set_is_the_sources"]
+            "C15_slices_nonvacuous", "C15_rest_header_survives", "C15_tokens_set_is_the_sources", "C15_google_header_kept", "C15_google_header_examples", "C15_google_header_refuted"]
 
 STYLES = ("rest", "google", "numpydoc")
 HEAD_SENT = [
@@ -251,9 +251,12 @@ def run(ctx):
             ctx.item(it["cls"], {"stage": "implementation-side property", "clause": it.get("clause"),
                                  "input": {"doc": it["case"]["doc"], "style": it["case"]["style"], "level": it["case"]["level"],
                                            "params": it["case"]["params"]}, "detail": it.get("detail")})
+    # Model/GoogleHead.v (C15_google_header_*) against the head of the Google scanner and the parsed description
+    n_head, head_bad = gtie.compare_head(list(dict.fromkeys(gtie.gen_head(rng) for _ in range(400 if ctx.quick else 12000))))
+    corr += head_bad[:3]
     if not ctx.violations:
         if corr:
-            ctx.violation({"stage": "correspondence: Model/DocSplit.v vs docstring_utils (%s)" % corr[0]["stage"],
+            ctx.violation({"stage": "correspondence: Model/DocSplit.v / Model/GoogleHead.v vs the implementation (%s)" % corr[0]["stage"],
                            "input": corr[0]["input"], "impl_output": corr[0]["impl"], "model_output": corr[0]["model"],
                            "n_disagreements": len(corr),
                            "note": "the model of the split no longer describes the code; on the generated docstrings the header "
